@@ -74,6 +74,22 @@ def _eval_global(case):
             T = otsu(img, bool(iz))
             R = rc(img, bool(iz))
             real[iz] = (T, R, otsu(pimg, bool(iz)), rc(pimg, bool(iz)))
+        # the same calls again on the same array objects, in the opposite order (ignore_zeros first): a threshold is a
+        # function of the histogram, not of what was asked about this array before
+        again = {}
+        seq = []
+        for x in (img, pimg):       # all four calls on one object before the other object is touched
+            r1 = rc(x, True)
+            t0 = otsu(x, False)
+            r0 = rc(x, False)
+            t1 = otsu(x, True)
+            seq.append(((t0, r0), (t1, r1)))
+        for iz in (0, 1):
+            again[iz] = (seq[0][iz][0], seq[0][iz][1], seq[1][iz][0], seq[1][iz][1])
+        for iz in (0, 1):
+            if not all((a == b) or (a != a and b != b) for a, b in zip(real[iz], again[iz])):
+                f.append(dict(kind='property', key='global-threshold:depends-on-earlier-calls',
+                              detail=dict(ignore_zeros=iz, first=[float(x) for x in real[iz]], again=[float(x) for x in again[iz]])))
     except Exception as e:
         return dict(findings=[dict(kind='property', key=f'global-threshold:raised:{type(e).__name__}',
                                    detail=dict(error=str(e)[:200]))], nontrivial=False, sig='g-raised' + d[:200],
